@@ -1,11 +1,16 @@
 """C17 - the Calinski-Harabasz index matches its definition (known finding: scalar centre)."""
+import numpy as np
+
 from ticcmon import e2e_check
-from ticcmon.checks import e2e_common as ec
+from ticcmon.checks import common, e2e_common as ec
+from ticcmon.oracles import metrics
 
 LEVEL = "exploration"
 RULE = ("converged traced runs (rounds < limit) with K>=2 and every cluster non-empty; reported index vs the per-column-centroid definition; "
         "the recorded scalar-centre deviation is recognised by recomputing exactly that variant; non-trivial = converged run on which the two "
-        "variants differ (so the classifier discriminates); distinct by case hash")
+        "variants differ (so the classifier discriminates); distinct by case hash; plus synthetic converged states built by the harness (cluster sizes "
+        "incl. 1, 2, 255..258, 511..513, 1025; biased/unbiased covariances; one or all sensors translated by up to 1e6 spreads) on which the metric "
+        "function is called directly")
 ASSUMPTIONS = ["translation invariance is evaluated through the definition (which is invariant) per state"]
 SHARD_TIMEOUT = {"quick": 900, "thorough": 3400}
 MIX = {"single:converge": 6, "single:small": 2, "joint:converge": 1}
@@ -13,8 +18,10 @@ PROPS = ("C17",)
 
 
 def plan(tier, seed):
-    specs = ec.plan_e2e(seed, 17, MIX, 170 if tier == "quick" else 1700, nwcap=12 if tier == "quick" else 24)
-    if tier == \"thorough\":
+    specs = ec.plan_e2e(seed, 17, MIX, 150 if tier == "quick" else 1700, nwcap=12 if tier == "quick" else 24)
+    for p, n in enumerate(common.split_counts(240 if tier == "quick" else 4000, 4 if tier == "quick" else 12)):
+        specs.append(dict(name="synth-%d" % p, mode="interp", what="synth", n=n, seed=[seed, 171, p]))
+    if tier == "thorough":
         specs += ec.fixture_specs()
     return specs
 
@@ -23,16 +30,118 @@ def nontrivial(run, I):
     return "c" if I.counts.get("ch_checked", 0) and not I.counts.get("ch_variants_coincide", 0) else None
 
 
+SIZES_OF_INTEREST = [1, 2, 3, 7, 31, 64, 255, 256, 257, 258, 511, 512, 513, 1025]
+
+
+def build_state(case):
+    """A synthetic *converged* state: every cluster's mean and covariance are those of its own members."""
+    from fast_ticc.containers import model_state as ms, arguments
+    rng = np.random.default_rng(case["rng"])
+    N, W, K = case["N"], case["W"], case["K"]
+    nw = N * W
+    sizes = case["sizes"]
+    T = sum(sizes)
+    labels = [k for k, s_ in enumerate(sizes) for _ in range(s_)]
+    order = rng.permutation(T) if case["shuffle"] else np.arange(T)
+    labels = [labels[i] for i in order]
+    centres = rng.normal(size=(K, nw)) * case["sep"]
+    if case["equal_column_means"]:
+        centres = np.repeat(rng.normal(size=(K, 1)) * case["sep"], nw, axis=1)
+    X = np.array([centres[l] for l in labels]) + rng.normal(size=(T, nw)) * case["spread"]
+    X = X + np.asarray(case["offset"], dtype=np.float64)[None, :]
+    args = arguments.UserArguments(0.1, 20, 1.0, 2, 0, K, 1, W, bool(case["biased"]))
+    st = ms.ModelState.empty_model(args, X)
+    st.point_labels = labels
+    for k, c in enumerate(st.clusters):
+        mem = c.member_points
+        c.stacked_data_mean = np.mean(X[mem], axis=0)
+        with np.errstate(all="ignore"):
+            c.empirical_covariance = np.atleast_2d(np.cov(X[mem].T, bias=bool(case["biased"]))) if len(mem) > 1 or case["biased"] else np.zeros((nw, nw))
+        c.train_inverse = np.eye(nw)
+    return st, X, labels
+
+
+def check_synth(res, case):
+    from fast_ticc import cluster_metrics as cmx
+    st, X, labels = build_state(case)
+    K = case["K"]
+    Xc = X.copy()
+    try:
+        got = float(cmx.calinski_harabasz_index(X, st))
+    except Exception as e:
+        res.violation("calinski_harabasz_index raised %s: %s (sizes %s)" % (type(e).__name__, str(e)[:150], case["sizes"]), case)
+        return
+    res.evaluations += 1
+    with np.errstate(all="ignore"):
+        d = metrics.ch_def(Xc, labels, K)
+        s_ = metrics.ch_scalar_centre(Xc, labels, K)
+    if not (np.isfinite(d) and np.isfinite(s_)):
+        res.skipped("degenerate synthetic state")
+        return
+
+    def close(a, b):
+        return abs(a - b) <= 1e-8 * max(abs(a), abs(b)) + 1e-300
+    res.count("synthetic_states_checked")
+    if max(case["sizes"]) >= 255:
+        res.count("states_with_a_cluster_of_255_or_more")
+    if np.max(np.abs(case["offset"])) >= 1e4 * case["spread"]:
+        res.count("states_with_large_offsets")
+    if close(got, d):
+        res.count("ch_matches_definition")
+    elif close(got, s_):
+        res.known_finding("ch-scalar-centre", "synthetic converged state: reported %r = scalar-centre variant, definition %r" % (got, d), case)
+    else:
+        res.violation("synthetic converged state (sizes %s, biased=%s, offset up to %.3g): reported %r equals neither the definition %r nor the "
+                      "scalar-centre variant %r" % (case["sizes"], case["biased"], float(np.max(np.abs(case["offset"]))), got, d, s_), case)
+    if not close(d, s_):
+        res.nontriv(common.h(case))
+    if not np.array_equal(X, Xc):
+        res.violation("calinski_harabasz_index modified the data", case)
+
+
+def run_synth(spec, res):
+    rng = np.random.default_rng(spec["seed"])
+    for i in range(spec["n"]):
+        N, W = int(rng.integers(1, 4)), int(rng.integers(1, 4))
+        K = int(rng.integers(2, 6))
+        sizes = [int(rng.choice(SIZES_OF_INTEREST)) if rng.random() < 0.5 else int(rng.integers(1, 90)) for _ in range(K)]
+        if sum(sizes) <= K:
+            sizes[0] += K
+        spread = float(10 ** rng.uniform(-3, 3))
+        offset = np.zeros(N * W)
+        u = rng.random()
+        if u < 0.5:
+            sensor = int(rng.integers(0, N))
+            offset[sensor::N] = float(10 ** rng.uniform(0, 6)) * spread * (1 if rng.random() < 0.5 else -1)   # one sensor translated
+        elif u < 0.7:
+            offset[:] = float(10 ** rng.uniform(3, 6)) * spread                                               # every sensor translated
+        case = dict(what="synth", rng=[int(v) for v in spec["seed"]] + [i], N=N, W=W, K=K, sizes=sizes, shuffle=bool(rng.integers(0, 2)),
+                    sep=float(rng.uniform(0.5, 6)) * spread, spread=spread, offset=offset, biased=bool(rng.integers(0, 2)),
+                    equal_column_means=bool(rng.random() < 0.3) and u >= 0.7)
+        check_synth(res, case)
+        if i == 0:
+            res.sample({k: v for k, v in case.items()})
+
+
 def run_shard(spec, res):
-    ec.run_e2e_shard(spec, res, PROPS, nontrivial)
+    if spec["what"] == "synth":
+        run_synth(spec, res)
+    else:
+        ec.run_e2e_shard(spec, res, PROPS, nontrivial)
 
 
 def replay(case, res):
-    e2e_check.replay_case(res, case, PROPS)
+    if case.get("what") == "synth":
+        check_synth(res, case)
+    else:
+        e2e_check.replay_case(res, case, PROPS)
 
 
 def finalize(merged, tier):
     out = {"inconclusive": []}
     ec.min_counter(merged, out, "ch_checked", 40 if tier == "quick" else 400)
+    ec.min_counter(merged, out, "synthetic_states_checked", 150 if tier == "quick" else 2500)
+    ec.min_counter(merged, out, "states_with_a_cluster_of_255_or_more", 40 if tier == "quick" else 600)
+    ec.min_counter(merged, out, "states_with_large_offsets", 40 if tier == "quick" else 600)
     ec.unexpected(merged, out)
     return out
